@@ -703,16 +703,24 @@ impl MqttClientImpl {
                 self.desired_stop_options = None;
                 self.desired_state = ClientImplState::Connected;
             }
-            OperationOptions::Stop(options) => {
+            OperationOptions::Stop(mut options) => {
 
                 if let Some(disconnect) = &options.disconnect {
-                    debug!("Submitting disconnect operation to protocol state");
-                    let disconnect_context = UserEventContext {
-                        event: UserEvent::Disconnect(disconnect.clone()),
-                        current_time
-                    };
+                    if is_connection_established(self.protocol_state.state()) {
+                        debug!("Submitting disconnect operation to protocol state");
+                        let disconnect_context = UserEventContext {
+                            event: UserEvent::Disconnect(disconnect.clone()),
+                            current_time
+                        };
 
-                    self.protocol_state.handle_user_event(disconnect_context);
+                        self.protocol_state.handle_user_event(disconnect_context);
+                    } else {
+                        // No MQTT connection to send a DISCONNECT on (e.g. still waiting for the CONNACK): the
+                        // packet would be failed by the protocol state right away, so there is nothing to wait
+                        // for before stopping.
+                        debug!("Dropping disconnect packet from stop request: no established MQTT connection");
+                        options.disconnect = None;
+                    }
                 }
 
                 debug!("Updating desired state to Stopped");
